@@ -112,6 +112,9 @@ type Interp struct {
 	inputs       map[string]*Object
 	nreads       int
 	stack        []*Frame
+	// pathHi: upper bounds of symbolic integers established on this path by a model (the decoded length of a hex string
+	// that was checked to fit a fixed buffer)
+	pathHi map[*IAtom]*big.Int
 	// ReadStates: the abstract state just before each entropy read (loop-unrolling mode)
 	ReadStates []ReadState
 	inputRoots []*Cell
@@ -1631,4 +1634,35 @@ func (it *Interp) AssumedString() string {
 	}
 	sort.Strings(out)
 	return strings.Join(out, " | ")
+}
+
+// lowerBound is the lower end of t's interval, using the upper bounds of symbolic integers established on this path.
+func (it *Interp) lowerBound(t *Term) *big.Int {
+	lo, _ := t.Bounds()
+	if lo.Sign() >= 0 || len(it.pathHi) == 0 {
+		return lo
+	}
+	out := new(big.Int)
+	for _, m := range t.mons {
+		if len(m.preds) > 0 {
+			return lo
+		}
+		if m.atom == nil {
+			out.Add(out, m.c)
+			continue
+		}
+		alo, ahi := m.atom.Lo, m.atom.Hi
+		if h, ok := it.pathHi[m.atom]; ok && h.Cmp(ahi) < 0 {
+			ahi = h
+		}
+		if m.c.Sign() >= 0 {
+			out.Add(out, new(big.Int).Mul(m.c, alo))
+		} else {
+			out.Add(out, new(big.Int).Mul(m.c, ahi))
+		}
+	}
+	if out.Cmp(lo) > 0 {
+		return out
+	}
+	return lo
 }
